@@ -31,7 +31,7 @@ type reuseKind[T any] struct {
 	dec  func(r *T, path string, b []byte) error
 	sum  func(v *T) (string, error) // re-encoding + hash(es)
 	show func(v *T) string
-	// explained: a change of the copy that is exactly a recorded behaviour of the unchanged tree -> its signature
+	// explained: a change of the copy with a specific, recognisable cause -> the signature of that cause
 	explained func(c, r *T, show0, show1 string) string
 }
 
@@ -51,8 +51,9 @@ func txsPart(s string) string {
 	return s
 }
 
-// Data.FromProto fills the Metadata struct the receiver already points to (`if d.Metadata == nil { new }`): a struct
-// copy of a Data shares that pointer, so its metadata (and hash) follow the next decode into the receiver
+// Until /repo bf7367f Data.FromProto filled the Metadata struct the receiver already pointed to: a struct copy of a
+// Data shares that pointer, so its metadata (and hash) followed the next decode into the receiver. Repaired; the class
+// stays as a violation class of its own (a decoder that overwrites the shared struct again gets this signature).
 func dataExplained(c, r *types.Data, show0, show1 string) string {
 	if c.Metadata != nil && c.Metadata == r.Metadata && txsPart(show0) == txsPart(show1) {
 		return "C12/aliasing/data-metadata/struct-shared-with-copy-overwritten-by-later-decode"
